@@ -172,6 +172,13 @@ pub fn run(args: &Args) {
                 big.fields.insert("Notes".into(), Value::Protected(format!("{}{}", body, tail_marker).as_bytes().into()));
                 big.times = g.times();
                 db.root.children.push(Node::Entry(big));
+                // an incompressible attachment of 40..200 KiB in half of the compressed cases
+                if case_i % 2 == 1 && g.rng.chance(1, 2) {
+                    let n = *g.rng.pick(&[40_000usize, 66_000, 100_000, 200_000]);
+                    let noise = g.rng.bytes(n);
+                    db.header_attachments.push(HeaderAttachment { flags: 0, content: noise });
+                    db.config.compression_config = CompressionConfig::GZip;
+                }
                 db.header_attachments.push(HeaderAttachment { flags: 1, content: vec![0x5a; 1000] });
             }
             if tagsep {
